@@ -256,6 +256,46 @@ func (c *Ctx) undecide(msg string) {
 	c.undecided = append(c.undecided, msg)
 }
 
+// obligeFieldBounds: a function of the package that declares a field bound (type invariant) must establish it for every
+// value of that type it returns.
+func (c *Ctx) obligeFieldBounds(s *State, res Val, pos token.Pos) {
+	if c.pc == nil || len(c.pc.FieldBounds) == 0 || res == nil {
+		return
+	}
+	var walk func(v Val)
+	walk = func(v Val) {
+		switch x := v.(type) {
+		case TupleV:
+			for _, e := range x.E {
+				walk(e)
+			}
+		case StructV:
+			st := structOf(x.Ty)
+			if st == nil || namedOf(x.Ty) == nil {
+				return
+			}
+			owner := typeName(x.Ty)
+			for _, fb := range c.pc.FieldBounds {
+				if shortPkg(c.pc.Pkg)+"."+fb.Type != owner {
+					continue
+				}
+				for i := 0; i < st.NumFields() && i < len(x.F); i++ {
+					if st.Field(i).Name() != fb.Field {
+						continue
+					}
+					if sc, ok := x.F[i].(Scalar); ok {
+						if ii, isInt := isIntType(sc.Ty); isInt {
+							c.oblige(s, "typeinv", fb.Type+"."+fb.Field, c.ar.cmp(token.LEQ, sc.T, c.ar.litI(fb.Max, ii), ii),
+								fmt.Sprintf("returned %s has %s <= %d", fb.Type, fb.Field, fb.Max), pos)
+						}
+					}
+				}
+			}
+		}
+	}
+	walk(res)
+}
+
 // verify runs the symbolic execution of c.fn against c.fc and collects obligations.
 func (c *Ctx) verify() {
 	defer func() {
@@ -671,8 +711,11 @@ func (c *Ctx) enterBlock(s *State, fr *Frame) bool {
 		}
 		if inLoop {
 			it.Visited = c.freshConst(s, "visited", c.visitedSort(it.MT))
+			it.Count = c.freshConst(s, "visitedcount", SInt)
+			c.assume(s, fmt.Sprintf("(>= %s 0)", it.Count))
 			fr.regs[v] = it
 			fr.src["visited"] = GhostSetV{Term: it.Visited}
+			fr.src["visitedcount"] = Scalar{it.Count, SInt, types.Typ[types.Int]}
 		}
 	}
 	// bump allocation base: objects allocated in earlier iterations are >= old base but < new base
@@ -847,6 +890,7 @@ func (c *Ctx) atReturn(s *State, fr *Frame, res Val) {
 	c.batchSeq++
 	c.curBatch, c.batchMembers, c.batchGoalIdx = fmt.Sprintf("ret%d", c.batchSeq), nil, nil
 	defer c.closeBatch(s)
+	c.obligeFieldBounds(s, res, pos)
 	for i, e := range c.fc.Ensures {
 		label := e.Label
 		if label == "" {
@@ -1365,6 +1409,11 @@ func (c *Ctx) unop(s *State, fr *Frame, x *ssa.UnOp) []*State {
 				sc.T = c.bind(s, fr.fn.Name()+"."+x.Name(), sc.S, sc.T)
 				if ii, ok := isIntType(sc.Ty); ok {
 					c.assume(s, c.ar.rangeAssume(sc.T, ii))
+					if lv, isLoc := p.(LocV); isLoc && lv.Kind == LocField && lv.Field != nil {
+						if max, ok := c.fieldBound(lv.Field.Owner, lv.Field.Name); ok {
+							c.assume(s, c.ar.cmp(token.LEQ, sc.T, c.ar.litI(max, ii), ii))
+						}
+					}
 				}
 				c.assume(s, c.ptrFact(sc))
 				v = sc
